@@ -608,11 +608,23 @@ class C08(Prop):
             return res
 
         got: dict[str, tuple[str, Any]] = {}
+        expects: dict[str, Any] = {}  # mode -> (kind, want, info) where it differs from the entry's
         for lk, loader_cls in (("dict", DictLoader), ("caching", CachingDictLoader)):
             # the output limit only bounds the cost of runaway recursion; pages here are < 10^4 characters
             env = make_env(loader=loader_cls(dict(srcs)), limits={"output_stream_limit": OUTPUT_LIMIT})
             for mode in ("sync", "async"):
                 got[f"{lk}/{mode}"] = self._render(env, entry, data, mode)
+            if lk == "caching" and (kind == "err" or digest(case) % 4 == 1):
+                # history on one caching environment: the other templates of the case are rendered as pages of
+                # their own (their parsed form is shared through the cache), then the entry once more
+                for other in [n for n in sorted(templates) if n != entry][:3]:
+                    ex = resolve(templates, other, data)
+                    if ex[0] == "err" and ex[1] == "recursive":
+                        continue  # an infinite page is expensive to run and nothing but "no page" is demanded
+                    expects[f"caching/then:{other}"] = ex
+                    got[f"caching/then:{other}"] = self._render(env, other, data, "sync")
+                got["caching/again"] = self._render(env, entry, data, "async")
+                res.labels.append("cached-history")
         if (digest(case) % 5 == 0 or kind == "err") and all(_fs_safe(n) for n in srcs):
             # loaders that name a template by its resolved path, not by the name written in `extends`
             with tempfile.TemporaryDirectory(prefix="lv-c08-") as tmp:
@@ -666,26 +678,31 @@ class C08(Prop):
         mismatch_detail = ""
         for mode in got:
             g_kind, g_val = got[mode]
-            if g_kind == "crash" and kind == "err" and want == "recursive" and isinstance(g_val, RecursionError):
+            kind_m, want_m, info_m = expects.get(mode, (kind, want, info))
+            own = mode in expects  # judged against its own expectation
+            if g_kind == "crash" and kind_m == "err" and want_m == "recursive" and isinstance(g_val, RecursionError):
                 # an infinite page; Python's own limit may be hit before the context depth limit (C02's subject)
                 res.labels.append("recursive-resolution:RecursionError")
                 continue
             if g_kind == "crash":
                 add(f"crash:{exc_bucket(g_val)}", "escape", mode, f"{type(g_val).__name__}: {str(g_val)[:200]}")
                 continue
-            if kind == "ok":
+            if kind_m == "ok":
                 if g_kind == "ok":
-                    if g_val != want:
+                    if g_val != want_m and own:
+                        add("output-mismatch:cached-history", "resolution", mode,
+                            f"after the entry was rendered on the same caching environment: expected {want_m!r}, got {g_val!r}")
+                    elif g_val != want_m:
                         mismatch_modes.append(mode)
                         mismatch_detail = f"got {g_val!r}"
                     continue
                 # an error where a page is expected
-                if info.required_unreached and isinstance(g_val, RequiredBlockError) and (
-                    _required_name(g_val) in info.required_unreached_names | {None}
+                if info_m.required_unreached and isinstance(g_val, RequiredBlockError) and (
+                    _required_name(g_val) in info_m.required_unreached_names | {None}
                 ):
                     res.labels.append("required-unreached:eager")
                     continue
-                if info.dup_standalone and isinstance(g_val, TemplateInheritanceError):
+                if info_m.dup_standalone and isinstance(g_val, TemplateInheritanceError):
                     res.labels.append("dup-standalone:rejected")
                     continue
                 add(f"unexpected-error:{exc_bucket(g_val)}", "no-error", mode,
@@ -693,23 +710,23 @@ class C08(Prop):
                 continue
             # an error is expected
             if g_kind == "ok":
-                add(f"missing-error:{want}", "error-class", mode, f"rendered {g_val!r}")
+                add(f"missing-error:{want_m}", "error-class", mode, f"rendered {g_val!r}")
                 continue
-            if want == "recursive":
+            if want_m == "recursive":
                 ok = True  # infinite page: any LiquidError (in practice ContextDepthError) is legitimate
                 res.labels.append("recursive-resolution:" + type(g_val).__name__)
-            elif want == "required":
+            elif want_m == "required":
                 ok = isinstance(g_val, RequiredBlockError)
-            elif want == "notfound":
+            elif want_m == "notfound":
                 ok = isinstance(g_val, (TemplateNotFoundError, TemplateInheritanceError))
             else:
                 ok = isinstance(g_val, TemplateInheritanceError)
             if not ok:
-                add(f"wrong-error:{want}:{exc_bucket(g_val)}", "error-class", mode,
+                add(f"wrong-error:{want_m}:{exc_bucket(g_val)}", "error-class", mode,
                     f"{type(g_val).__name__}: {str(g_val).splitlines()[0][:200]}")
 
         if mismatch_modes:
-            pattern = "all-modes" if len(mismatch_modes) == len(got) else "+".join(mismatch_modes)
+            pattern = "all-modes" if len(mismatch_modes) == len(got) - len(expects) else "+".join(mismatch_modes)
             feats = [f for f, on in (("nested", info.nested_override or info.nested_dropped),
                                      ("super", info.super_used)) if on]
             problems[f"output-mismatch:{pattern}:{'+'.join(feats) or 'flat'}"] = ("resolution", mismatch_modes, mismatch_detail)
